@@ -392,7 +392,7 @@ func VerifC15_Manifest() {
 	}
 	schema := &verifNode{}
 	if zzverif.Choose("schema.present", 2) == 1 {
-		schema = verifGenNode("schema", 3, 3, "12.")
+		schema = verifGenNode("schema", 3, zzverif.Param("SCHEMALEN", 5), "12. -") // longer than "1.2": a version that merely starts with it is another version
 	}
 	contents := &verifNode{}
 	switch zzverif.Choose("contents.shape", 3) {
